@@ -736,7 +736,7 @@ def draw_run_cfg(rng, focus: str, tier: str) -> dict:
         "write_faults": [],
         "read_faults": [],
         "p_fault": rng.choice([0.1, 0.25, 0.5]),
-        "spec": specs.draw_cfg(rng, focus),
+        "spec": specs.draw_cfg(rng, focus, tier),
         "small_spec": None,
         "apis": rng.choice([["io"], ["io"], ["io", "aoef", "infer"]]),
         "p_type_arg": rng.choice([0.0, 0.3]),
